@@ -155,7 +155,7 @@ def strategy(tier, stratum):
     return _case(stratum)
 
 
-ENUM_SPACE = "every order of 3 tips x every order of 3 wells (36), and every order of 4 tips x every order of 4 wells (576; quick: a stride sample of 96), with pairwise different per-tip volumes, on a plate and on a trough"
+ENUM_SPACE = "both ends of every documented range of evo_wash / evo_aspirate / evo_dispense (on the end: accepted, one step outside: refused); every order of 3 tips x every order of 3 wells (36), and every order of 4 tips x every order of 4 wells (576; quick: a stride sample of 96), with pairwise different per-tip volumes, on a plate and on a trough"
 
 
 def enumerate_cases(tier):
@@ -185,6 +185,36 @@ def enumerate_cases(tier):
                 "label": None,
                 "vols_container": "list",
             }
+
+
+    # the ends of every documented range: exactly on them (accepted) and one step outside (refused)
+    wash_mid = {"tips": [1, 3], "waste_location": [30, 2], "cleaner_location": [31, 3], "arm": 0, "waste_vol": 3.0, "waste_delay": 500, "cleaner_vol": 4.0, "cleaner_delay": 500, "airgap": 10, "airgap_speed": 70, "retract_speed": 30, "fastwash": 1, "low_volume": 0}
+    ranges = {"waste_grid": (1, 67), "waste_site": (1, 128), "cleaner_grid": (1, 67), "cleaner_site": (1, 128), "arm": (0, 1), "waste_vol": (0, 100), "waste_delay": (0, 1000), "cleaner_vol": (0, 100), "cleaner_delay": (0, 1000), "airgap": (0, 100), "airgap_speed": (1, 1000), "retract_speed": (1, 100), "fastwash": (0, 1), "low_volume": (0, 1)}
+    for key, (lo, hi) in ranges.items():
+        for val in (lo, hi):
+            args = {k: (list(v) if isinstance(v, list) else v) for k, v in wash_mid.items()}
+            if key.endswith("_grid"):
+                args[key.replace("_grid", "_location")][0] = val
+            elif key.endswith("_site"):
+                args[key.replace("_site", "_location")][1] = val
+            else:
+                args[key] = val
+            yield {"kind": "wash", "args": args, "bad": None, "bad_hi": False}
+        for hi_side in (False, True):
+            yield {"kind": "wash", "args": {k: (list(v) if isinstance(v, list) else v) for k, v in wash_mid.items()}, "bad": key, "bad_hi": hi_side}
+    base = {"trough": False, "rows": 8, "cols": 3, "wells": [[0, 1], [1, 1]], "tips": [1, 2], "vols": [10.5, 20.25], "grid": 20, "site": 3, "arm": 0, "lc": "Water", "M": 950, "stream": "core", "label": None, "vols_container": "list"}
+    for kind in ("evo_aspirate", "evo_dispense"):
+        for key, vals in (("grid", (1, 67)), ("site", (1, 128)), ("arm", (0, 1)), ("vols", ([950, 0], 950, 0, [0.004, 949.995]))):
+            for val in vals:
+                yield dict(base, kind=kind, **{key: val})
+        # the format's own volume limit shows when no dilutor limit is given
+        yield dict(base, kind=kind, M=1e9, vols=7158278, wells=[[0, 1]], tips=[1])
+        yield dict(base, kind=kind, M=1e9, vols=[7158278.0, 1.0])
+        yield dict(base, kind=kind, M=1e9, vols=7158279, wells=[[0, 1]], tips=[1], stream="invalid", bad="vol-huge")
+        yield dict(base, kind=kind, M=1e9, vols=[1.0, 7158278.5], stream="invalid", bad="vol-huge")
+        for key, vals, bad in (("grid", (0, 68), "grid"), ("site", (0, 129), "site"), ("arm", (-1, 2), "arm"), ("vols", ([950.01, 1], 950.01, [1, -0.01], 7158279), "vol")):
+            for val in vals:
+                yield dict(base, kind=kind, stream="invalid", bad=bad, **{key: val})
 
 
 def _sym(t):
@@ -333,12 +363,13 @@ def check_case(case) -> Obs:
     rows, cols = case["rows"], case["cols"]
     M = case["M"]
     trough = case["trough"]
+    cap, fill = (1e7, 1e5) if M < 1e8 else (1e8, 5e7)  # a huge dilutor limit: the format's own 7158278 uL is the limit
     if trough:
-        lw = robotools.Trough("Lab", rows, cols, min_volume=0, max_volume=1e7, initial_volumes=1e5)
-        spec = {"kind": "trough", "name": "Lab", "vrows": rows, "cols": cols, "min": 0, "max": 1e7, "init": [1e5] * cols, "pos": [case["grid"], case["site"]]}
+        lw = robotools.Trough("Lab", rows, cols, min_volume=0, max_volume=cap, initial_volumes=fill)
+        spec = {"kind": "trough", "name": "Lab", "vrows": rows, "cols": cols, "min": 0, "max": cap, "init": [fill] * cols, "pos": [case["grid"], case["site"]]}
     else:
-        lw = robotools.Labware("Lab", rows, cols, min_volume=0, max_volume=1e7, initial_volumes=1e5)
-        spec = {"kind": "plate", "name": "Lab", "rows": rows, "cols": cols, "min": 0, "max": 1e7, "init": [[1e5] * cols for _ in range(rows)], "pos": [case["grid"], case["site"]]}
+        lw = robotools.Labware("Lab", rows, cols, min_volume=0, max_volume=cap, initial_volumes=fill)
+        spec = {"kind": "plate", "name": "Lab", "rows": rows, "cols": cols, "min": 0, "max": cap, "init": [[fill] * cols for _ in range(rows)], "pos": [case["grid"], case["site"]]}
     obs.cls("trough" if trough else "plate", "stream:" + case["stream"])
     wells = [wid(r, c) for r, c in case["wells"]]
     tips = [_sym(t) for t in case["tips"]]
@@ -364,6 +395,34 @@ def check_case(case) -> Obs:
     post = lw.volumes
     new = [r for r in wl if not r.startswith("C;")]
     stream = case["stream"]
+    # the same call through the module-level command function (no labware, no tracking): same verdict, same command
+    direct = dexc = None
+    try:
+        direct = getattr(robotools.evotools.commands, case["kind"])(n_rows=rows, n_columns=cols, wells=wells, labware_position=(case["grid"], case["site"]), volume=vols, liquid_class=case["lc"], tips=tips, arm=case["arm"], max_volume=M)
+    except Exception as e:  # noqa
+        dexc = e
+    dname = f"evo_cmd.{case['kind']}"
+    if stream == "invalid" and dexc is None:
+        obs.bad("C13/invalid-accepted", f"{dname}(wells={wells}, tips={case['tips']}, volume={case['vols']}, pos=({case['grid']},{case['site']}), arm={case['arm']}, lc={case['lc']!r}, max_volume={M}) [{case['bad']}] returned {direct!r}")
+    if exc is None and dexc is None and (len(new) != 1 or new[0] != direct):
+        obs.bad("C13/direct-differs", f"{dname} returns {direct!r}, the worklist method appended {new}")
+    if exc is None and dexc is not None and stream == "core" and not (isinstance(case["vols"], list) and case.get("vols_container", "list") != "list"):
+        obs.bad("C13/valid-rejected", f"{dname} raised {type(dexc).__name__}: {dexc} for a call the worklist method accepted ({new})")
+    if M == 950 and stream != "invalid" and dexc is None:
+        # without max_volume the documented dilutor volume of 950 uL is the limit
+        try:
+            d2 = getattr(robotools.evotools.commands, case["kind"])(n_rows=rows, n_columns=cols, wells=wells, labware_position=(case["grid"], case["site"]), volume=vols, liquid_class=case["lc"], tips=tips, arm=case["arm"])
+            if d2 != direct:
+                obs.bad("C13/direct-differs", f"{dname} without max_volume returns {d2!r}, with max_volume=950 {direct!r}")
+        except Exception as e:  # noqa
+            obs.bad("C13/valid-rejected", f"{dname} without max_volume raised {type(e).__name__}: {e} (volumes {case['vols']} <= 950)")
+    if M == 950 and stream == "invalid" and str(case.get("bad", "")).startswith("vol"):
+        try:
+            d2 = getattr(robotools.evotools.commands, case["kind"])(n_rows=rows, n_columns=cols, wells=wells, labware_position=(case["grid"], case["site"]), volume=vols, liquid_class=case["lc"], tips=tips, arm=case["arm"])
+        except Exception:
+            obs.cls("direct-default-limit:rejected")
+        else:
+            obs.bad("C13/invalid-accepted", f"{dname} without max_volume accepted volume {case['vols']} (dilutor volume 950): {d2!r}")
     desc = f"{case['kind']}(wells={wells}, tips={case['tips']}, volumes={case['vols']} as {container}, pos=({case['grid']},{case['site']}), arm={case['arm']}, lc={case['lc']!r}, max_volume={M}) on a {'trough' if trough else 'plate'} {rows}x{cols}"
     if exc is not None:
         obs.cls("rejected", "exc:" + type(exc).__name__)
@@ -395,6 +454,10 @@ def check_case(case) -> Obs:
         obs.bad("C13/command-type", f"{desc} -> {new[0]!r}")
     if f["liquid_class"] != case["lc"] or f["arm"] != case["arm"] or f["grid"] != case["grid"] or f["site"] != case["site"] - 1:
         obs.bad("C13/arguments", f"{desc} -> liquid class {f['liquid_class']!r}, arm {f['arm']}, grid {f['grid']}, site {f['site']} in {new[0]!r}")
+    for sl in f["slots"]:
+        if sl is not None and "." in sl and len(sl.split(".")[1]) > 2:
+            obs.bad("C13/volume-format", f"{desc}: volume slot {sl!r} has more than two decimals in {new[0]!r}")
+            break
     rack = gwl.Rack.from_spec(spec)
     try:
         deltas = gwl.decode_command(rec, rack)
